@@ -237,6 +237,35 @@ func (e *Engine) feasibleM(st *State, extra *Term, what string) (bool, Model) {
 	return v != Unsat, nil
 }
 
+// requireOrAssume: a precondition of a model (a range the model is exact in).  Violable: the code under test
+// leaves the model, which is unsupported; provably true: assumed (a no-op); undecided by the solver: assumed
+// and recorded among the stubs - the explored space is narrowed to where the model is exact, never widened.
+func (e *Engine) requireOrAssume(st *State, cond *Term, what, msg string) {
+	neg := e.tc.Not(cond)
+	if neg.IsFalse() {
+		return
+	}
+	if st.model != nil && modelHolds(st.model, neg) {
+		panic(unsupported(msg))
+	}
+	switch e.quickDecide(st, neg) {
+	case 0:
+		st.assume(cond)
+		return
+	case 1:
+		panic(unsupported(msg))
+	}
+	rel := e.relevant(st.pc, neg)
+	v, _, _ := e.sol.Check(what, append(rel, neg))
+	switch v {
+	case Sat:
+		panic(unsupported(msg))
+	case Unknown:
+		e.stubsUsed["assumed where the solver could not decide it: "+what] = true
+	}
+	st.assume(cond)
+}
+
 func (e *Engine) modelOK(st *State, m Model, extra *Term) bool {
 	ev := newEvaluator(m)
 	for _, t := range st.pc {
@@ -811,7 +840,7 @@ func (e *Engine) callFunction(st *State, fr *Frame, fn *ssa.Function, args []Val
 func allowedStdPkg(path string) bool {
 	switch path {
 	case "encoding/binary", "bytes", "net", "net/netip", "strconv", "strings", "unicode/utf8", "errors",
-		"math/bits", "encoding/hex", "io", "internal/bytealg", "internal/byteorder", "internal/itoa", "internal/stringslite", "unicode", "slices", "sort", "cmp", "math":
+		"math/bits", "encoding/hex", "io", "internal/bytealg", "internal/byteorder", "internal/itoa", "internal/stringslite", "unicode", "slices", "sort", "cmp", "math", "sync/atomic":
 		return true
 	}
 	return false
